@@ -219,7 +219,8 @@ use crate::vspec_line::*;''')
         # the first `continue;` of the body ends the DW_LNE_set_address arm: the ghost state follows the OPERAND
         ('continue;', f'proof {{ {BV}\n in_tomb = (val == ones({SZ})); pend = if in_tomb {{ None }} else {{ Some(val) }}; }}'),
         # a row was reported by `execute` (the `if !execute {{ continue }}` is behind us); the ghost state follows the ROW REGISTER
-        ('if tombstone {', 'proof { live = !in_tomb; if self.from_row.regs().end_sequence { in_tomb = false; pend = None; } }'),
+        # (anchored with its 16-space indentation: the statement level of the loop body, not a nested `if tombstone`)
+        ('\n                if tombstone {', 'proof { live = !in_tomb; if self.from_row.regs().end_sequence { in_tomb = false; pend = None; } }'),
         ('\n                if let Some(address) = self.address.take() {', 'proof {\n assert(self.address == pend); // [C12:line-set-address-pending]\n }'),
     ], loops={0: '''invariant
                 self.wf(),
